@@ -12,7 +12,7 @@
 
 /* split_args(shape, N, axis): N equal sections 1..MAXSEC dividing the extent; piece i covers [i*n/N, (i+1)*n/N) along axis and everything along the other axes */
 void h_split_args(void){
-  u64 shape[3] = {1,1,1}, out[6] = {0};
+  u64 shape[4] = {1,1,1,1}, out[6] = {0};
   in_shape(shape, DIM);
   i32 ax = in_i32(-DIM, DIM - 1); u64 an = norm_axis(ax, DIM);
   u64 n = SECTIONS; ASSUME(shape[an] % n == 0);      /* run-time argument of nmtools, a per-query constant here (the result is a std::vector) */
@@ -29,7 +29,7 @@ void h_split_args(void){
 }
 /* split_args(shape, [i0,..], axis): 1..3 strictly increasing cut positions inside (0, n): pieces [0,i0), [i0,i1), ..., [ik,n) */
 void h_split_args_at(void){
-  u64 shape[3] = {1,1,1}, cut[3], out[6] = {0};
+  u64 shape[4] = {1,1,1,1}, cut[3], out[6] = {0};
   for (int i = 0; i < DIM; i++) shape[i] = in_u64(1, MAXE + 1);
   i32 ax = in_i32(-DIM, DIM - 1); u64 an = norm_axis(ax, DIM);
   u64 nc = SECTIONS;                                  /* number of cut positions: per-query constant 1..3; the positions are symbolic */
@@ -46,7 +46,7 @@ void h_split_args_at(void){
 }
 /* view::split(a, SECTIONS (compile-time), axis): the piece `p` has extent n/SECTIONS along axis and element a[..., p*n/SECTIONS + i, ...] */
 void h_split(void){
-  u64 shape[3] = {1,1,1}, idx[4], os[4] = {0}, od = 0, ex[4] = {0}, src[3] = {0,0,0}; u32 data[CELLS], out = 0;
+  u64 shape[4] = {1,1,1,1}, idx[4], os[4] = {0}, od = 0, ex[4] = {0}, src[4] = {0,0,0,0}; u32 data[CELLS], out = 0;
   in_shape(shape, DIM); in_data(data, NCELL);
   i32 ax = in_i32(-DIM, DIM - 1); u64 an = norm_axis(ax, DIM);
   ASSUME(shape[an] % SECTIONS == 0);
